@@ -39,6 +39,8 @@ inductive Ev
   | bind (k : Kind) (id : Id) (perm : Bool) (n : Nat) (sem0 : Int)
       -- find_or_add_ident(id, FOA_GLOBAL_SCOPE) + `if (dn.<k> == -1) sem_value++; dn.<k> = n` (define_new_function,
       -- copy_function, define_variable, class definitions); sem0 = sem_value before
+  | fnReset                                         -- end of a function definition with the table pointers still inside
+                                                    -- the tables (abandoned literal): release everything, back to the start
   | cleanup                                         -- clean_up_locals() + free_unused_identifiers() (epilog, clean_parser)
   | memReq (blk size : Nat) (sync : Option (Nat × Nat))
       -- allocate_in_mem_block / add_to_mem_block / insert_in_mem_block; `sync` = (current_size, max_size) found in
@@ -50,6 +52,15 @@ inductive Ev
   | ifPush | ifPop | ifUnwind                       -- #if stack
   | fnPush | fnPop                                  -- push_function_context / pop_function_context
   | fnFlagSet                                       -- lexer saw `(:` followed by an identifier: function_flag = 1
+  | scrAlloc (len : Nat)      -- a string of len bytes (with its zero) asked from the scratchpad: scratch_copy /
+                              -- scratch_alloc / scratch_copy_string / the string scanner of yylex; pad or malloc
+  | scrLarge                  -- scratch_large_alloc called directly
+  | scrFreeLast (k : Nat)     -- scratch_free_last(); k strings below the top one are marked freed (first byte 0)
+  | scrResize (size : Nat)    -- scratch_realloc of the last string, staying on the pad
+  | scrJoin                   -- scratch_join of the two last strings on the pad
+  | scrMark                   -- interior free: `*ptr = 0`
+  | scrFreeBlock              -- scratch_free of a malloc'ed block
+  | scrDestroy                -- scratch_destroy()
   deriving Repr, DecidableEq
 
 /-- observable outputs: the trace points (event, cursor after, allocation size) and the end-of-compile reports -/
@@ -60,6 +71,8 @@ inductive Out
   | identClean (name : Id) (delta : Int)
   | identEnd (name : Id) (delta : Int) (fn glob cls : Int) (lnum : Int)
   | localsEnd (cur max lOff tOff : Nat)
+  | scr (name : String) (tail : Nat) (size : Nat) (last : Nat) (large : Nat) (k : Option Nat)
+  | scrEnd (last tail large : Nat)
   | crash (what : String)
   deriving Repr, DecidableEq
 
@@ -138,6 +151,11 @@ def stepLoc (l : Loc) (e : Ev) : Loc × List Out :=
     let n := min k l.N
     let o := [Out.ev "local.argtypes" (l.tOff + n : Nat) l.tsize]
     if l.tOff + n ≤ l.tsize then (l, o) else l.crash o "table-read-out-of-bounds define_new_function"
+  | .fnReset =>
+    -- reads locals[0 .. lOff) while releasing; afterwards all cursors are at the start of the tables
+    if l.lOff + l.cur ≤ l.lsize then
+      ({ l with cur := 0, max := 0, lOff := 0, tOff := 0, frames := [] }, [Out.ev "local.fn_reset" (0 : Nat) l.lsize])
+    else l.crash [] "table-read-out-of-bounds function end"
   | .cleanup =>
     let o := [Out.ev "local.cleanup" (l.lOff + l.cur : Nat) l.lsize]
     if l.lOff + l.cur ≤ l.lsize then ({ l with cur := 0, max := 0, lOff := 0, tOff := 0, frames := [] }, o)
@@ -232,6 +250,7 @@ def stepIds (l l' : Loc) (s : Ids) (e : Ev) : Ids × List Out :=
     match l.frames.drop d with
     | [] => (s, [])
     | f :: _ => (reactivate (popMany (l.lOff + l.cur - (f.lo + f.c)) s) l'.lOff l'.cur, [])
+  | .fnReset => (popMany (l.lOff + l.cur) s, [])
   | .bind k id perm n sem0 =>
     let before := s.bnd k id
     let inc : Int := if before = -1 then 1 else 0
@@ -344,22 +363,101 @@ def stepLex (s : Lex) (e : Ev) : Lex × List Out :=
     else ({ s with fnCount := s.fnCount - 1 }, o)
   | _ => (s, [])
 
-/-! ## the four machines together -/
+/-! ## scratchpad (lib/misc/scratchpad.c) -/
+
+/-- one string on the pad: bytes [start, start+len) hold it (with its zero), byte start+len holds len -/
+structure SEntry where
+  start : Nat
+  len : Nat
+  deriving Repr, DecidableEq
+
+structure Pad where
+  entries : List SEntry     -- newest first
+  large : Nat               -- malloc'ed blocks on scratch_head's list
+  oob : Bool                -- an access outside scratchblock[] happened
+  ill : Bool                -- an event the C callers cannot produce was seen (free of nothing ...): state frozen
+  deriving Repr
+
+def Pad.init : Pad := ⟨[], 0, false, false⟩
+
+/-- offset of scr_last / scr_tail: &scratchblock[2] when the pad is empty -/
+def Pad.last (p : Pad) : Nat := match p.entries with | [] => 2 | e :: _ => e.start
+def Pad.tail (p : Pad) : Nat := match p.entries with | [] => 2 | e :: _ => e.start + e.len
+
+def padLimit : Nat := scratchpadSize - 1
+
+def Pad.out (p : Pad) (name : String) (k : Option Nat := none) : Out := .scr name p.tail padLimit p.last p.large k
+
+def popK : Nat → List SEntry → List SEntry
+  | 0, es => es
+  | _ + 1, [] => []
+  | k + 1, _ :: es => popK k es
+
+def stepPad (p : Pad) (e : Ev) : Pad × List Out :=
+  match e with
+  | .scrDestroy => let q : Pad := ⟨[], 0, false, false⟩; (q, [q.out "scr.destroy"])
+  | _ =>
+  if p.oob ∨ p.ill then (p, []) else
+  match e with
+  | .scrAlloc len =>
+    -- the guard all pad allocators share: the length fits its byte and string + length byte fit the pad
+    if len ≤ 255 ∧ p.tail + 1 + len ≤ padLimit then
+      let q := { p with entries := ⟨p.tail + 1, len⟩ :: p.entries }
+      -- writes: the string at [start, start+len), its length byte at start+len
+      if q.tail ≤ padLimit then (q, [q.out "scr.push"]) else ({ q with oob := true }, [q.out "scr.push", .crash "scratchpad-overflow"])
+    else let q := { p with large := p.large + 1 }; (q, [q.out "scr.large"])
+  | .scrLarge => let q := { p with large := p.large + 1 }; (q, [q.out "scr.large"])
+  | .scrFreeLast k =>
+    match p.entries with
+    | [] => ({ p with ill := true }, [.crash "scratch_free_last on an empty pad"])
+    | e :: rest =>
+      -- reads scratchblock[e.start - 1] (length byte of the string below) and the first bytes of the strings passed
+      let q := { p with entries := popK k rest }
+      if 2 ≤ e.start - 1 ∧ 2 ≤ q.last then (q, [p.out "scr.free_last" (some k), q.out "scr.after"])
+      else ({ q with oob := true }, [p.out "scr.free_last" (some k), .crash "scratchpad-underflow"])
+  | .scrResize size =>
+    match p.entries with
+    | [] => ({ p with ill := true }, [.crash "scratch_realloc of nothing"])
+    | e :: rest =>
+      if size ≤ 255 ∧ e.start + size ≤ padLimit then
+        let q := { p with entries := ⟨e.start, size⟩ :: rest }; (q, [q.out "scr.resize"])
+      else ({ p with ill := true }, [.crash "scratch_realloc leaves the pad (not modelled)"])
+  | .scrJoin =>
+    match p.entries with
+    | e2 :: e1 :: rest =>
+      if e1.len + e2.len - 1 ≤ 255 ∧ 1 ≤ e1.len then
+        let q := { p with entries := ⟨e1.start, e1.len + e2.len - 1⟩ :: rest }; (q, [q.out "scr.join"])
+      else ({ p with ill := true }, [.crash "scratch_join leaves the pad (not modelled)"])
+    | _ => ({ p with ill := true }, [.crash "scratch_join of less than two strings"])
+  | .scrMark => (p, [p.out "scr.mark"])
+  | .scrFreeBlock =>
+    if p.large = 0 then ({ p with ill := true }, [.crash "scratch_free of a block that was not allocated"])
+    else let q := { p with large := p.large - 1 }; (q, [q.out "scr.free_block"])
+  | _ => (p, [])
+
+def runPad (p : Pad) (es : List Ev) : Pad × List Out :=
+  es.foldl (fun (acc : Pad × List Out) e => let r := stepPad acc.1 e; (r.1, acc.2 ++ r.2)) (p, [])
+
+/-! ## the machines together -/
 
 structure St where
   loc : Loc
   ids : Ids
   mem : Mem
   lex : Lex
+  pad : Pad
 
-def St.init (N : Nat) (P : Id → Bool := fun _ => false) : St := ⟨Loc.init N, Ids.init P, Mem.init, Lex.init⟩
+def St.init (N : Nat) (P : Id → Bool := fun _ => false) : St := ⟨Loc.init N, Ids.init P, Mem.init, Lex.init, Pad.init⟩
 
 def step (s : St) (e : Ev) : St × List Out :=
   let (loc', o1) := stepLoc s.loc e
   let (ids', o2) := stepIds s.loc loc' s.ids e
   let (mem', o3) := stepMem s.mem e
   let (lex', o4) := stepLex s.lex e
-  (⟨loc', ids', mem', lex'⟩, o1 ++ o3 ++ o4 ++ o2)
+  let (pad', o5) := stepPad s.pad e
+  -- end_new_file: the harness also reports the scratchpad, which scratch_destroy() must have emptied by then
+  let o6 := match e with | .lexEnd => [Out.scrEnd pad'.last pad'.tail pad'.large] | _ => []
+  (⟨loc', ids', mem', lex', pad'⟩, o1 ++ o3 ++ o4 ++ o2 ++ o5 ++ o6)
 
 def run (s : St) : List Ev → St × List Out
   | [] => (s, [])
